@@ -30,24 +30,27 @@ CLAIMED.update({
         text="Lean 4 theorems over a mechanism-level model of qtreetbl.c (LLRB 2-3-4 put_obj/remove_obj/fix/move_red_*, "
              "generic in the comparator: any total preorder; qtreetbl_byte_cmp proved to be one): put succeeds, keeps the "
              "table invariant and equals the ideal sorted-map insert/replace; get, size, find_min/find_max, clear equal "
-             "the ideal map's. Removal: see level_note. Model tied to the code by a differential correspondence run "
+             "the ideal map's; remove succeeds exactly for present keys and equals the ideal delete (the LLRB shape "
+             "invariant is needed for this: the bottom case drops a child unseen); operations on one key never change "
+             "another; history_refines: EVERY finite history from a fresh table returns exactly the ideal sorted map's "
+             "outputs and never faults (induction over the operation list). Model tied to the code by a differential correspondence run "
              "after EVERY operation (shape, colours, keys, values, traversal ids, parent pointers, live allocation "
              "count): BFS over all tree shapes reachable with a bounded key universe, exhaustive short sequences, "
              "random histories under three comparators.",
-        note="trusted: Lean kernel, hand transcription of qtreetbl.c (validated on explored histories), gcc/ASan. "
-             "PARTIAL until Tree/Remove.lean lands: the removal refinement (remove_refines) and the all-histories "
-             "corollary are not yet theorems; removal is covered by correspondence + ideal-map oracle only.",
+        note="trusted: Lean kernel, hand transcription of qtreetbl.c (validated on explored histories), gcc/ASan, "
+             "malloc/memcmp as modelled; put over an existing key with an EMPTY value keeps the old value (modelled as is).",
         technique="Lean 4 proof (Nipkow-style inorder refinement + LLRB invariant by induction on fuel) + differential correspondence",
         design="7/C01"),
     "C02": dict(
-        text="Lean 4 theorems: insertion into a valid 2-3-4 left-leaning red-black tree never faults and yields a valid "
-             "tree (put_post/put_llrb, all shapes, all keys); qtreetbl_check() = 0 iff the tree is valid (check_agrees); "
+        text="Lean 4 theorems: insertion (also one whose allocation fails) and removal (present or absent key) on a valid "
+             "2-3-4 left-leaning red-black search tree never fault and yield a valid tree (put_post, remove_llrb: inductive "
+             "class contract per helper, induction on fuel); reachable_llrb: after every operation of every history the "
+             "tree is valid with an exact key count; qtreetbl_check() = 0 iff the tree is valid (check_agrees); "
              "height <= 2*log2(n+1) and hence lookups use at most 2*log2(n+1) comparisons (height_bound, find_cost). "
              "The LLRB variant macro is re-read from the source on every run. Correspondence: every tree state reachable "
              "with a bounded key universe (BFS driven through the C code), ordered and random histories; after every "
              "operation the dumped tree is checked by an independent LLRB predicate and by qtreetbl_check().",
-        note="trusted: Lean kernel, hand transcription, translator/treeconfig.py. PARTIAL until Tree/Remove.lean lands: "
-             "remove_preserves_llrb is not yet a theorem (deletion is covered by the BFS correspondence and the oracle).",
+        note="trusted: Lean kernel, hand transcription of qtreetbl.c (validated on explored histories), translator/treeconfig.py.",
         technique="Lean 4 proof (inductive balance invariant, case analysis per fix-up shape) + K-gen variant flag + differential correspondence",
         design="7/C02"),
     "C19": dict(
